@@ -227,6 +227,36 @@ func processorList(v ssa.Value, depth int) (els []ssa.Value, why string) {
 			return nil, "processor list comes from a helper with several return statements"
 		}
 		return processorList(rets[0], depth+1)
+	case *ssa.Phi:
+		// a stage appended under a condition (`if valuation != nil { procs = append(procs, …) }`):
+		// the list with the optional stages in place; the shorter alternatives must be
+		// what remains when optional stages are left out
+		var lists [][]ssa.Value
+		for _, e := range x.Edges {
+			l, w := processorList(e, depth+1)
+			if w != "" {
+				return nil, w
+			}
+			lists = append(lists, l)
+		}
+		longest := 0
+		for i, l := range lists {
+			if len(l) > len(lists[longest]) {
+				longest = i
+			}
+		}
+		for _, l := range lists {
+			k := 0
+			for _, v := range lists[longest] {
+				if k < len(l) && l[k] == v {
+					k++
+				}
+			}
+			if k != len(l) {
+				return nil, "processor list is assembled along alternative paths that do not agree on the order of the stages"
+			}
+		}
+		return lists[longest], ""
 	case *ssa.MakeSlice:
 		if n, ok := core.ConstInt(x.Len); ok && n == 0 {
 			return nil, "" // make([]*Processor, 0, n): an empty list to append to
